@@ -116,6 +116,7 @@ class Session:
         self.closed_log = []
         self.check_m = True
         self.idless = []
+        self.uncertain = set()      # paths whose state the model can not derive (error answers under faults): read back
         self.desync = False
         self.deferred = []
 
@@ -253,6 +254,7 @@ class Session:
         sent = self.send_payload(owner, json.dumps(msg).encode(), chunks)
         if sent and idmode == "right" and p.state == "forwarded" and p.reply is None:
             p.reply = (kind, payload)
+            p.reply_trusted = owner.healthy and owner.track_input   # a faulty owner's reply may or may not get through
             if p.deadline is not None and self.now >= p.deadline:
                 p.race = True
         self.stats["owner_reply_" + idmode] += 1
@@ -474,7 +476,7 @@ class Session:
             self.v("rpc/output-neither-request-nor-response", payload[:200])
 
     def _on_notification(self, c, obj):
-        if not c.ledger:
+        if not c.ledger or not c.healthy:
             self.stats["unledgered_notifications"] += 1
             return
         fid = obj["method"]
@@ -626,7 +628,12 @@ class Session:
         self.sig("resp", p.method if p.method in METHODS else "?", exp, success)
         if exp == "ok" and not success:
             code = obj["error"].get("code") if isinstance(obj.get("error"), dict) else None
-            if p.may_refuse:
+            if self.faults_active and code == -32603 and p.method in ("add", "change", "remove") and isinstance(p.params, dict) and isinstance(p.params.get("path"), str):
+                # "at worst an error that reports the failed delivery": whether it took effect is read back later
+                self.uncertain.add(p.params["path"])
+                self.stats["uncertain_after_error"] += 1
+                eff = None
+            elif p.may_refuse:
                 self.stats["tolerated_refusals"] += 1
                 eff = None
             elif self._refusal_plausible(p, code):
@@ -655,7 +662,9 @@ class Session:
             self.stats["desync"] += 1
         if success and eff is not None:
             eff()
-        if success and p.method == "get" and exp in ("ok", "any"):
+        if success and p.method == "get" and getattr(p, "readback", None) is not None:
+            self._readback(p, obj.get("result"))
+        elif success and p.method == "get" and exp in ("ok", "any"):
             self._check_get(p, obj.get("result"))
         if not success and p.method == "fetch":
             f = getattr(p, "fetch", None)
@@ -723,25 +732,56 @@ class Session:
         del p.conn.pending[p.key]
         p.conn.done[p.key] = p
 
+    def _readback(self, p, result):
+        path = p.readback
+        hit = [it for it in result if isinstance(it, dict) and it.get("path") == path] if isinstance(result, list) else []
+        if hit:
+            if path in self.elements:
+                self.elements[path].value = hit[0].get("value")
+            else:
+                self.elements[path] = Elem(path, p.readback_owner, True, hit[0].get("value"), False, None, {})
+        else:
+            self.elements.pop(path, None)
+        self.uncertain.discard(path)
+        self.stats["readbacks"] += 1
+
+    def resolve_uncertain(self, observer):
+        """ask the daemon (through a healthy connection) what became of the uncertain paths; replicas are compared with that afterwards"""
+        for path in sorted(self.uncertain):
+            e = self.elements.get(path)
+            if e is not None and not e.is_state:
+                self.uncertain.discard(path)
+                continue
+            p = self.request(observer, "get", {"path": {"equals": path}})
+            p.readback = path
+            p.readback_owner = e.owner if e is not None else observer
+
     def _expected_replica(self, f):
         out = {}
         for path, e in self.elements.items():
+            if path in self.uncertain:
+                continue
             if rule_matches(f.rule, path) and self.visible(e, f.conn):
                 out[path] = e.value if e.is_state else MISSING
         return out
 
     def _check_replica(self, f, when):
+        if not f.conn.healthy or not f.conn.ledger:
+            return True     # a faulty peer's own replica is its own problem
         exp = self._expected_replica(f)
+        have = f.replica
+        if self.uncertain:
+            have = {k: v for k, v in f.replica.items() if k not in self.uncertain}
         self.stats["replica_checks"] += 1
         if len(exp) > 0:
             self.stats["replica_checks_nonempty"] += 1
-        if exp.keys() != f.replica.keys():
-            extra = sorted(set(f.replica) - set(exp))[:5]
-            miss = sorted(set(exp) - set(f.replica))[:5]
+        if exp.keys() != have.keys():
+            extra = sorted(set(have) - set(exp))[:5]
+            miss = sorted(set(exp) - set(have))[:5]
             self.v("replica/mismatch-paths:" + when, "fetch %r on %s: extra %r missing %r" % (f.fid, f.conn.name, extra, miss))
             return False
         for k in exp:
-            a, b = exp[k], f.replica[k]
+            a, b = exp[k], have[k]
             if (a is MISSING) != (b is MISSING) or (a is not MISSING and not jeq(a, b)):
                 self.v("replica/mismatch-value:" + when, "fetch %r on %s path %r: replica %r model %r" % (f.fid, f.conn.name, k, b, a))
                 return False
@@ -812,6 +852,20 @@ class Session:
                     self.stats["frames_refused"] += 1
                     if c.healthy:
                         self.v("wire/send-failed-on-healthy-connection", "on %s" % c.name)
+                    # the frame never reaches the client, but a response in it tells what the daemon did: keep the model in step
+                    try:
+                        if c.transport == "ws":
+                            d = wire.WsDecoder()
+                            d.state = "ws"
+                            got = d.feed(frame)
+                        else:
+                            got = wire.RawDecoder().feed(frame)
+                        for kind, payload, obj, _w in got:
+                            if kind == "msg" and isinstance(obj, dict) and "id" in obj and "method" not in obj and c.ledger:
+                                self._on_response(c, obj)
+                                self.stats["undelivered_responses_applied"] += 1
+                    except Exception:
+                        pass
                     continue
                 c.expected_wire += frame
                 before = len(c.dec.errors)
@@ -856,6 +910,8 @@ class Session:
                     self.stats["timers_disarmed"] += 1
             elif k == "x":
                 self.stats["timer_expiries"] += 1
+            elif k == "w":
+                self.stats["writev_calls"] += 1
             elif k == "e":
                 c = self.by_fd.get(ev[1])
                 if c is not None:
@@ -917,7 +973,7 @@ class Session:
                     p.hold = True
                 elif p.state == "forwarded":
                     due = None
-                    if p.reply is not None:
+                    if p.reply is not None and p.reply_trusted:
                         due = "owner replied"
                     elif p.owner is not None and p.owner.closed:
                         due = "owner gone"
@@ -1008,6 +1064,7 @@ Conn.close_reported = False
 Pending.hold = False
 Pending.expiry_delivered = False
 Pending.race = False
+Pending.reply_trusted = True
 Pending.may_refuse = False
 Pending.ambiguous = False
 Fetch.request = None
